@@ -293,6 +293,126 @@ class Inter:
             return s["may"], s["must"]
         return set(), set()
 
+    # ---------------------------------------------------------------- storage writes with values
+    def prim_write(self, e):
+        """for a storage write/remove primitive: dict(kind, item, key, value) else None"""
+        pr = self.prim(e)
+        if not pr or pr[0] not in ("write", "remove"):
+            return None
+        n = e.name
+        a = e.args
+        key = None
+        val = None
+        if n.startswith("cosmwasm_storage::Singleton::"):
+            val = a[1] if len(a) > 1 else None
+        elif n.startswith("cosmwasm_storage::Bucket::"):
+            key = a[1] if len(a) > 1 else None
+            val = a[2] if len(a) > 2 else None
+        elif n.startswith("cw_storage_plus::Item::"):
+            val = a[2] if len(a) > 2 else None
+        elif n.startswith("cw_storage_plus::Map::"):
+            key = a[2] if len(a) > 2 else None
+            val = a[3] if len(a) > 3 else None
+        elif n == "cw_controllers::Admin::set":
+            val = a[2] if len(a) > 2 else None
+        return {"kind": pr[0], "item": pr[1], "key": key, "value": val, "event": e}
+
+    def writes_of_event(self, e, mapping=None, depth=6, _stack=()):
+        """storage writes performed by event e (recursively through workspace callees), values
+        substituted into the caller's terms.  Each entry gets 'must': performed on every success
+        path of every callee on the way."""
+        mapping = mapping or {}
+        pw = self.prim_write(e)
+        if pw:
+            out = dict(pw)
+            for k in ("key", "value"):
+                if out[k] is not None:
+                    out[k] = sym.subst(out[k], mapping)
+            out["must"] = True
+            out["chain"] = _stack
+            return [out]
+        if e.target is None or depth <= 0 or e.target.key in _stack:
+            return []
+        s = self.summary(e.target)
+        if not any(k in ("write", "remove") for (k, _it) in s["may"]):
+            return []
+        args2 = [sym.subst(a, mapping) for a in e.args]
+        m2 = self.param_map(e.target, args2)
+        try:
+            oks = self.ok_paths_at(e.target, m2)
+        except P.TooManyPaths:
+            return [{"kind": "write", "item": "?undetermined", "key": None, "value": None, "event": e, "must": False, "chain": _stack}]
+        per_path = []
+        for p in oks:
+            ws = []
+            for e2 in p.events:
+                ws.extend(self.writes_of_event(e2, m2, depth - 1, _stack + (e.target.key,)))
+            per_path.append(ws)
+        out = []
+        for i, ws in enumerate(per_path):
+            for wr in ws:
+                sig = (wr["kind"], wr["item"], wr["key"], wr["value"])
+                in_all = all(any((o["kind"], o["item"], o["key"], o["value"]) == sig and o["must"] for o in other)
+                             for j, other in enumerate(per_path) if j != i)
+                wr = dict(wr)
+                wr["must"] = wr["must"] and in_all
+                if not any((o["kind"], o["item"], o["key"], o["value"], o["must"]) == sig + (wr["must"],) for o in out):
+                    out.append(wr)
+        return out
+
+    def writes_on_path(self, p, mapping=None):
+        out = []
+        for e in p.events:
+            out.extend(self.writes_of_event(e, mapping))
+        return out
+
+    # ---------------------------------------------------------------- queries
+    def parse_query(self, v):
+        """for (the unwrapped result of) a QuerierWrapper::query call: dict(T, addr, msg) where msg is the
+        query message aggregate/const; None if v is not a query"""
+        v = self.inline(v)
+        n = 0
+        while tag(v) in ("unwrap", "ok") and n < 6:
+            v = kids(v)[0]
+            n += 1
+        if tag(v) != "call" or payload(v)[0] != "cosmwasm_std::QuerierWrapper::query":
+            return None
+        extra = payload(v)[3:]
+        T = extra[-1] if extra else "?"
+        req = kids(v)[1] if len(kids(v)) > 1 else None
+        out = {"T": T, "addr": None, "msg": None, "req": req, "call": v}
+        if req is None:
+            return out
+        for x in sym.walk(req):
+            if tag(x) == "agg" and payload(x)[0].endswith("WasmQuery") and payload(x)[1] == "Smart":
+                out["addr"] = sym.field(x, "contract_addr")
+                mb = sym.field(x, "msg")
+                for y in sym.walk(mb):
+                    if tag(y) == "call" and payload(y)[0] == "cosmwasm_std::to_binary":
+                        out["msg"] = kids(y)[0]
+                        out["U"] = payload(y)[3:][-1] if payload(y)[3:] else "?"
+                        break
+                break
+            if tag(x) == "agg" and payload(x)[0].endswith("BankQuery"):
+                out["bank"] = x
+                break
+        return out
+
+    def msg_variant(self, m):
+        """(adt, variant, {field: value}) of a message value (aggregate or promoted constant)"""
+        if m is None:
+            return None
+        if tag(m) == "agg":
+            return (payload(m)[0], payload(m)[1], dict(zip(payload(m)[2], kids(m))))
+        if tag(m) == "const":
+            ty, val = payload(m)
+            mm = re.match(r"^&?(?:'static )?(.*)$", ty)
+            adt = mm.group(1) if mm else ty
+            vm = re.search(r"::([A-Za-z0-9_]+)\s*(?:\{|$)", val.replace("{{", "{"))
+            if vm:
+                return (adt, vm.group(1), {})
+        return None
+
     # ---------------------------------------------------------------- dispatch
     def entry(self, contract, name):
         return self.world.find_fn("%s::contract::%s" % (contract, name))
